@@ -151,7 +151,7 @@ func init() {
 		Cases: func(master uint64, tier string) []Case {
 			if tier == "thorough" {
 				// a larger pool drawn from the master seed: 1000 keys per type plus 60 + 60 leading-zero keys per curve
-				return seqCases(master, 1, func(int) int { return 5*1000 + 4*120 + 8 })
+				return seqCases(master, 1, func(int) int { return 5*1000 + 4*120 + 14 })
 			}
 			return seqCases(master, 1, func(int) int { return 70 })
 		},
